@@ -6,7 +6,10 @@
 (*                         (0 = an unsigned file, i > 0 = asset i of the   *)
 (*                         library), save and restore the builder `arch`   *)
 (*                         times through an archive, then sign with the    *)
-(*                         synchronous or asynchronous entry point         *)
+(*                         synchronous or asynchronous entry point; with   *)
+(*                         Variants the claim version and the ingredient   *)
+(*                         entry point are chosen as well (a version-1     *)
+(*                         claim only takes version-1 manifests)           *)
 (*   Tamper(i)             a copy of signed asset i with one media byte    *)
 (*                         changed                                         *)
 (*   Read(i, fl)           read asset i (sync or async entry point)        *)
@@ -23,7 +26,10 @@
 (***************************************************************************)
 EXTENDS Naturals, Sequences, FiniteSets, TLC
 
-CONSTANTS MaxOps, MaxIng, MaxArch
+CONSTANTS MaxOps, MaxIng, MaxArch,
+          Variants     \* TRUE: a Sign also chooses the claim version (1 | 2) and the way its signed ingredients come in
+                       \* ("stream": add_ingredient_from_stream, "reader": a recorded ingredient taken over from a Reader);
+                       \* FALSE: both are left to the replay harness (cv = 0, via = "any")
 
 Flavours == {"sync", "async"}
 VARIABLES assets,   \* the library: sequence of records
@@ -38,13 +44,18 @@ Init == assets = <<>> /\ hist = <<>> /\ legacy = FALSE
 
 IngLists == UNION {[1..k -> 0..N] : k \in 0..MaxIng}
 
-Sign(ings, arch, fl) ==
-  /\ assets' = Append(assets, [kind |-> "signed", ings |-> ings, arch |-> arch, fl |-> fl, base |-> 0])
-  /\ hist' = Append(hist, [op |-> "S", ings |-> ings, arch |-> arch, fl |-> fl, i |-> 0])
+CVs == IF Variants THEN {1, 2} ELSE {0}
+Vias == IF Variants THEN {"stream", "reader"} ELSE {"any"}
+\* the claim version of the manifest inside asset i (a tampered copy keeps its original's)
+CvOf(i) == IF assets[i].kind = "tampered" THEN assets[assets[i].base].cv ELSE assets[i].cv
+Sign(ings, arch, fl, cv, via) ==
+  /\ \A k \in 1..Len(ings) : IF cv = 1 /\ ings[k] # 0 THEN CvOf(ings[k]) = 1 ELSE TRUE
+  /\ assets' = Append(assets, [kind |-> "signed", ings |-> ings, arch |-> arch, fl |-> fl, base |-> 0, cv |-> cv, via |-> via])
+  /\ hist' = Append(hist, [op |-> "S", ings |-> ings, arch |-> arch, fl |-> fl, i |-> 0, cv |-> cv, via |-> via])
   /\ UNCHANGED legacy
 Tamper(i) ==
   /\ Signed(i)
-  /\ assets' = Append(assets, [kind |-> "tampered", ings |-> <<>>, arch |-> 0, fl |-> "sync", base |-> i])
+  /\ assets' = Append(assets, [kind |-> "tampered", ings |-> <<>>, arch |-> 0, fl |-> "sync", base |-> i, cv |-> 0, via |-> "any"])
   /\ hist' = Append(hist, [op |-> "T", ings |-> <<>>, arch |-> 0, fl |-> "sync", i |-> i])
   /\ UNCHANGED legacy
 \* a read runs under a trust profile of its own context: "std" (the anchors cover the signer), "lean" (no anchor covers it) or
@@ -59,7 +70,7 @@ Legacy ==
   /\ UNCHANGED assets
 
 More == Len(hist) < MaxOps
-DoSign   == More /\ \E ings \in IngLists, arch \in 0..MaxArch, fl \in Flavours : Sign(ings, arch, fl)
+DoSign   == More /\ \E ings \in IngLists, arch \in 0..MaxArch, fl \in Flavours, cv \in CVs, via \in Vias : Sign(ings, arch, fl, cv, via)
 DoTamper == More /\ \E i \in 1..N : Tamper(i)
 DoRead   == More /\ \E i \in 1..N, fl \in Flavours, pf \in Profiles : Read(i, fl, pf)
 DoLegacy == More /\ Legacy
@@ -88,11 +99,12 @@ Desc(as, i) == LET r == Root(as, i) IN
 \* what a read under a profile reports as state: trust comes from the reading context alone
 StateUnder(as, i, pf) == IF as[i].kind = "tampered" THEN "Invalid" ELSE IF pf = "lean" THEN "Valid" ELSE "Trusted"
 ProfileLocal == \A i \in 1..N : StateUnder(assets, i, "lean") # "Trusted"
-Plainly(as) == [i \in 1..Len(as) |-> [as[i] EXCEPT !.arch = 0, !.fl = "sync"]]
+Plainly(as) == [i \in 1..Len(as) |-> [as[i] EXCEPT !.arch = 0, !.fl = "sync", !.cv = 0, !.via = "any"]]
 
 \* ---- properties of the design
 DescStable == [][\A i \in 1..N : Desc(assets', i) = Desc(assets, i)]_vars             \* C38: later operations change nothing
-FlavourArchiveInvisible == \A i \in 1..N : Desc(assets, i) = Desc(Plainly(assets), i)   \* C40, C22
+FlavourArchiveInvisible == \A i \in 1..N : Desc(assets, i) = Desc(Plainly(assets), i)   \* C40, C22; with Variants also C39 (claim version, entry point)
+LegacyWellFormed == \A i \in 1..N : (Signed(i) /\ assets[i].cv = 1) => \A k \in 1..Len(assets[i].ings) : IF assets[i].ings[k] = 0 THEN TRUE ELSE CvOf(assets[i].ings[k]) = 1
 ManifestsCarried == \A i \in 1..N : \A k \in 1..Len(assets[Root(assets, i)].ings) :
                        LET a == assets[Root(assets, i)].ings[k] IN a # 0 => Manifests(assets, a) \subseteq Manifests(assets, i)   \* C39
 UnsignedClean == \A i \in 1..N : \A k \in 1..Len(Desc(assets, i).ings) :
@@ -105,5 +117,8 @@ TypeOK == /\ Len(hist) <= MaxOps /\ N <= MaxOps
 
 \* witnesses (expected to be violated): the interesting shapes are reachable
 W_Chain == ~(\E i \in 1..N : Cardinality(Manifests(assets, i)) >= 3)
+\* a version-2 manifest over a version-1 manifest that has a signed ingredient of its own (a chain held together by a legacy ingredient assertion)
+W_LegacyChain == ~(\E i \in 1..N : Signed(i) /\ assets[i].cv = 2 /\ \E k \in 1..Len(assets[i].ings) :
+                      LET a == assets[i].ings[k] IN a # 0 /\ Signed(a) /\ assets[a].cv = 1 /\ \E k2 \in 1..Len(assets[a].ings) : assets[a].ings[k2] # 0)
 W_TamperedIng == ~(\E i \in 1..N : \E k \in 1..Len(Desc(assets, i).ings) : ~Desc(assets, i).ings[k].ok)
 =============================================================================
